@@ -456,12 +456,15 @@ func parseColourMappingOctants(r *bits.EBSPReader, octantDepth uint, partNumY ui
 		splitOctantFlag = r.ReadFlag()
 	}
 	if splitOctantFlag {
+		octs = make(map[string][4]Octant, 8*partNumY)
 		for k := uint(0); k < 2; k++ {
 			for m := uint(0); m < 2; m++ {
 				for n := uint(0); n < 2; n++ {
-					var err error
-					octs, err = parseColourMappingOctants(r, octantDepth, partNumY, resLsBits,
+					subOcts, err := parseColourMappingOctants(r, octantDepth, partNumY, resLsBits,
 						inpDepth+1, idxY+partNumY*k*inpLength/2, idxCb+m*inpLength/2, idxCr+n*inpLength/2, inpLength/2)
+					for key, oct := range subOcts {
+						octs[key] = oct
+					}
 					if err != nil {
 						return octs, err
 					}
